@@ -858,6 +858,10 @@ func ParseBlockStmt(p *ParserZH, blockIndent int) *syntax.StmtBlock {
 		stmt := ParseStatement(p)
 		bStmt.Children = append(bStmt.Children, stmt)
 	})
+	// a block has at least one statement (e.g. the text ends right after 如果‹条件›：)
+	if len(bStmt.Children) == 0 {
+		panic(p.getInvalidSyntaxPeek())
+	}
 
 	return bStmt
 }
@@ -969,6 +973,10 @@ func ParseBranchStmt(p *ParserZH) *syntax.BranchStmt {
 			return stmt
 		}
 	}
+	// 如果 at the very end of the text: there is no condition and no block at all
+	if stmt.IfTrueExpr == nil || stmt.IfTrueBlock == nil {
+		panic(p.getInvalidSyntaxPeek())
+	}
 	return stmt
 }
 
@@ -1069,6 +1077,10 @@ func ParseExecBlock(p *ParserZH, mainIndent int) *syntax.ExecBlock {
 			p.unsetStmtCompleteFlag()
 			if match, _ := p.tryConsume(TypeCatchErrorW); match {
 				execBlock.CatchBlock = append(execBlock.CatchBlock, ParseCatchErrorStmt(p))
+			} else {
+				// only 拦截 blocks may follow a 拦截 block: anything else is a syntax error
+				// (consuming nothing here would repeat this step forever)
+				panic(p.getInvalidSyntaxPeek())
 			}
 		}
 	})
